@@ -10,6 +10,7 @@ implementation's own observations.
 -/
 import Dtn7.Model.ClaManager
 import Dtn7.Lemmas.ClaManager
+import Dtn7.Lemmas.ClaManagerReg
 import Dtn7.Gen.C16
 
 namespace Dtn7.Props.C16
@@ -303,6 +304,27 @@ permanent. -/
 theorem peer_loss_restarts (env : Env) (hf : env.fixed = true) (ops : List Op) :
     ∀ o ∈ runObs env {} ops, o.outcome = .ok → restartRestarts env.cfg env.budget o = true :=
   fun o ho hok => (obsOk_clauses (spec_holds env hf ops o ho) hok).2.2.2.2.2.2
+
+/-- **an unregistered adapter is left alone** (`unregistered_not_started`): in every trace the manager calls
+`Start()` only on an adapter that is registered at that moment — its address was (re-)registered and it was not
+taken down (`Unregister`, `Close`) since. In particular the retry ticker never revives an adapter that was
+unregistered while it waited for its next attempt. (A clause of its own, proved with its own invariant: every
+element of the registry is registered according to the log.) -/
+theorem unregistered_not_started (env : Env) (hf : env.fixed = true) (ops : List Op) :
+    ∀ o ∈ runObs env {} ops, o.outcome = .ok → startedOnlyRegistered env.cfg o.hist = true :=
+  runObs_reg hf ops {} (Inv.init env) ⟨fun x hx => by simp at hx, rfl⟩
+
+/-- … and the clause is not vacuous: a sender whose first start fails is registered, unregistered while it
+waits, and not started by the next two ticks (the log ends with the one failed start). -/
+example :
+    let env : Env := { cfg := fun _ => ⟨0, true, false, false, 1, 2⟩, script := fun _ k => if k = 0 then .failRetry else .ok,
+                       budget := 3 }
+    (run env {} [.register 0, .unregister 0, .tick, .tick]).hist =
+      [.op .tick, .op .tick, .op (.unregister 0), .start 0 .failRetry, .op (.register 0)] ∧
+    -- without the `Unregister` the first tick starts it
+    (run env {} [.register 0, .tick]).hist =
+      [.start 0 .ok, .op .tick, .start 0 .failRetry, .op (.register 0)] := by
+  decide
 
 /-- **every tick retries every registered adapter that is not running** and may still be started
 (ttl > 0, or permanent) exactly once — the lower bound that complements `budget`. -/
